@@ -176,7 +176,8 @@ Fixpoint sim (St : list state) (tr : list item) (i : N) : list state * option N 
       let S1 := close_set (add_new [] [] (flat_map (vis_succ ev) S0)) in
       match S1 with
       | [] => ([], Some i)
-      | _ => sim S1 t (i + 1)
+      | _ => if Nat.ltb 600 (length S1) then ([], Some (1000000 + i))   (* state-set bound exceeded: reported, not accepted *)
+             else sim S1 t (i + 1)
       end
   end.
 
